@@ -45,8 +45,10 @@ LenPrefix(p) ==
     THEN HexVal(p[1]) * 4096 + HexVal(p[2]) * 256 + HexVal(p[3]) * 16 + HexVal(p[4])
     ELSE -1
 
+\* "oversize": a well-formed prefix announcing more than a writer may send; a reader may deliver the
+\* frame (dulwich, and git up to 65523) or refuse it with a protocol error
 Kind(n) == IF n < 0 THEN "invalid" ELSE IF n = 0 THEN "flush" ELSE IF n = 1 THEN "delim"
-           ELSE IF n = 2 THEN "respend" ELSE IF n = 3 THEN "invalid" ELSE "data"
+           ELSE IF n = 2 THEN "respend" ELSE IF n = 3 THEN "invalid" ELSE IF n <= MaxFrame THEN "data" ELSE "oversize"
 
 \* ---------------------------------------------------------------- frames
 \* An item is [k |-> "data" | "flush" | "delim" | "respend", p |-> payload]
